@@ -49,6 +49,9 @@ func init() {
 }
 
 func runC08(c *Ctx, r *Report) {
+	importFoundation(c, r, "C08", "netconf-reader-lifecycle")
+	r.Rule("C08/operation-constructed", "every rpc is sent with operation options built by NewOperation (a zero-value struct has Timeout 0 = maximum: a call whose reply never comes would not return)", 4)
+	checkOperationConstructed(c, r, "C08/operation-constructed")
 	importFoundation(c, r, "C08", "read-loop")
 	importFoundation(c, r, "C08", "netconf-framing")
 	importFoundation(c, r, "C08", "netconf-version")
